@@ -93,7 +93,7 @@ def run(rep, tier):
     rule_masked_rounds_c(rep, tier)
 
 
-def rule_key_lifecycle(rep, tier):
+def rule_key_lifecycle(rep, tier, rid="C10.D4", cfgs=None, prop="C10"):
     """D4 (mode level, av/sponge.py): a masked key object stands for its key for
     its whole life - after init, and after any number of re-randomisations, it
     extracts to the original key and masked encryption / decryption with it
@@ -101,16 +101,18 @@ def rule_key_lifecycle(rep, tier):
     the masking randomness; in several share configurations."""
     from . import modes, rules_c01
     from .affine import Unsupported
-    rid = "C10.D4"
     rep.rule(rid, "a masked key object (fresh or re-randomised) extracts to its key and drives the specification's AEAD")
-    cfgs = [repo.Config("c64"), repo.Config("c32", 3, 2, 3), repo.Config("c64", 2, 1, 2)] if tier == "quick" else \
-        [repo.Config("c64"), repo.Config("c32"), repo.Config("c32", 3, 2, 3), repo.Config("c64", 2, 1, 2), repo.Config("c64", 3, 3, 3),
-         repo.Config("c32", 2, 2, 2), repo.Config("c64", 4, 4, 4), repo.Config("c64", 2, 2, 4)]
+    if cfgs is None:
+        cfgs = [repo.Config("c64"), repo.Config("c32", 3, 2, 3), repo.Config("c64", 2, 1, 2)] if tier == "quick" else \
+            [repo.Config("c64"), repo.Config("c32"), repo.Config("c32", 3, 2, 3), repo.Config("c64", 2, 1, 2), repo.Config("c64", 3, 3, 3),
+             repo.Config("c32", 2, 2, 2), repo.Config("c64", 4, 4, 4), repo.Config("c64", 2, 2, 4)]
     prep = modes.prepare(tier, cfgs=cfgs)
     items = []
     for js, cname, layout, maxs, units in prep:
+        if cname not in rep.configs:
+            rep.configs.append(cname)
         for alg in ("128", "128a", "80pq"):
-            items.append((js, cname, layout, maxs, alg))
+            items.append((js, cname, layout, maxs, alg, rid, prop))
     for d in modes.parallel(items, _lifecycle_worker):
         rep.merge(d)
     rep.floor_discharged(rid, 2 * len(items) - 2)
@@ -119,9 +121,8 @@ def rule_key_lifecycle(rep, tier):
 def _lifecycle_worker(item):
     from . import modes, report, rules_c01
     from .affine import Unsupported
-    js, cname, layout, maxs, alg = item
-    rid = "C10.D4"
-    r = report.Report("C10", "quick")
+    js, cname, layout, maxs, alg, rid, prop = item
+    r = report.Report(prop, "quick")
     r._known = []
     m = modes.load_module(js)
     for fam in ("masked", "masked-rerandomized"):
